@@ -382,7 +382,7 @@ class FIXContainer:
             }
 
             other_tags = set(
-                [str(t) for t in other.keys() if str(t) not in ignore_tags]
+                [_tag_key(t) for t in other.keys() if _tag_key(t) not in ignore_tags]
             )
             self_tags = set(
                 [str(t) for t in self.tags.keys() if str(t) not in ignore_tags]
@@ -392,7 +392,7 @@ class FIXContainer:
                 return False
 
             for t, v in other.items():
-                if str(t) in ignore_tags:
+                if _tag_key(t) in ignore_tags:
                     continue
                 if self.is_group(t):
                     raise FIXMessageError(
